@@ -121,7 +121,7 @@ def handleStack (case : Nat) (j : Json) : IO Unit := do
   -- model: exact for the priority balancer, a relation (some selection order explains it) otherwise
   let cands := candidates eps
   let runWith := fun (sel : List Nat → Option Nat) =>
-    let (tr, res) := execute sel (outcomeOf eps) cands
+    let (tr, res) := execute sel (outcomeOfIn (jstr (jget sc "engine")) (jnat (jget sc "read_timeout_ms")) eps) cands
     let mOrder := (contactedList tr).filter (fun i => (eps.find? (·.idx == i)).map (·.kind) != some "refuse")
     (mOrder, Olla.Driver.C06.sortNat (offlineList tr), match res with | .served e => some e | _ => none)
   let implTriple := (order, Olla.Driver.C06.sortNat implOffline, servedBy)
